@@ -230,11 +230,15 @@ func (f *fnCtx) binary(x *ast.BinaryExpr) (out string) {
 	lk := f.kindOf(x.X)
 	if f.kindOf(x).k == kBool {
 		// anything boolean that cannot be interpreted becomes an uninterpreted condition on an opaque object
+		snap := f.g.snapshotFields()
+		nlines := len(f.lines)
 		defer func() {
 			if r := recover(); r != nil {
 				if _, isTr := r.(trError); !isTr {
 					panic(r)
 				}
+				f.g.restoreFields(snap)
+				f.lines = f.lines[:nlines]
 				if t, ok := f.boolOpaque(x); ok {
 					out = t
 					return
